@@ -65,6 +65,58 @@ def rows_in_box(frame, name, box):
 # --------------------------------------------------------------------------
 # observation of real objects in the model's result types
 # --------------------------------------------------------------------------
+def private_ok():
+    """is the private attribute GeoDataFrame._geometry there to be read (optional extra)"""
+    from spatialpandas import GeoDataFrame
+    return hasattr(GeoDataFrame, '_geometry')
+
+
+def active(r):
+    """the active geometry through the PUBLIC accessor: r.geometry.name; None when r is not a
+    GeoDataFrame or .geometry raises (whatever it raises)"""
+    from spatialpandas import GeoDataFrame
+    from spatialpandas.geometry import GeometryDtype
+    if not isinstance(r, GeoDataFrame):
+        return None
+    try:
+        s = r.geometry
+        return str(s.name) if isinstance(s.dtype, GeometryDtype) else 'not-a-geometry:' + str(s.name)
+    except Exception:  # noqa: BLE001
+        return None
+
+
+def act_name(r):
+    """public accessor first; the private attribute only as a fallback when .geometry raises"""
+    a = active(r)
+    if a is None and private_ok():
+        a = getattr(r, '_geometry', None)
+        a = None if a is None else str(a)
+    return a
+
+
+def pub(o):
+    """the public part of an observation: (is GeoDataFrame, .geometry.name | None, columns)"""
+    if is_bad(o):
+        return o
+    return (o[0], o[2], o[3])
+
+
+def pub_opt(o):
+    if o is None or is_bad(o):
+        return o
+    return C.Some(pub(o.v)) if isinstance(o, C.Some) else pub(o)
+
+
+def pub_dask(o):
+    if o is None or is_bad(o):
+        return o
+    d = o.v if isinstance(o, C.Some) else o
+    if is_bad(d):
+        return o
+    r = (pub(d[0]), [pub_opt(p) for p in d[1]], pub_opt(d[2]))
+    return C.Some(r) if isinstance(o, C.Some) else r
+
+
 def coq_cols(cols):
     return [(name, C.Rec('KPlain') if k is None else C.Rec('KGeom', C.Nat(k))) for name, k, _s in cols]
 
@@ -87,7 +139,7 @@ def frame_rec(r):
     cols = [(str(c), C.Rec('KGeom', C.Nat(_kind_of_dtype(dt))) if isinstance(dt, GeometryDtype)
              else C.Rec('KPlain')) for c, dt in zip(r.columns, r.dtypes)]
     isgeo = isinstance(r, GeoDataFrame)
-    act = r._geometry if isgeo else None
+    act = act_name(r) if isgeo else None
     return C.Rec('mkFrame', cols, C.Raw('CGeo' if isgeo else 'CPlain'),
                  None if act is None else C.Some(str(act)))
 
@@ -103,16 +155,9 @@ def observe(r):
     isgeo = isinstance(r, GeoDataFrame)
     if isgeo != (tn == 'GeoDataFrame'):
         return ('badtype', tn)
-    act = r._geometry if isgeo else None
-    gname = None
-    if isgeo:
-        try:
-            s = r.geometry
-            gname = str(s.name)
-            if not isinstance(s.dtype, GeometryDtype):
-                gname = 'not-a-geometry:' + gname
-        except ValueError:
-            gname = None
+    # the private attribute is an optional extra (compared only when it exists)
+    act = getattr(r, '_geometry', None) if isgeo and private_ok() else None
+    gname = active(r)
     cols = [(str(c), isinstance(dt, GeometryDtype)) for c, dt in zip(r.columns, r.dtypes)]
     return (isgeo, None if act is None else C.Some(str(act)),
             None if gname is None else C.Some(gname), cols)
